@@ -404,10 +404,19 @@ def run_case(spec):
         again = serialize_value(ser)
         if equal(again, ser) is not None or equal(ser, again) is not None:
             res.fail('not_idempotent', '%r -> %r' % (ser, again))
+        import copy as _copy
+        import json as _json
+        before = _json.dumps(ser, sort_keys=True)
         back = deserialize_value(ser)
         d = equal(back, _expected_tree(spec['value']))
         if d:
             res.fail('round_trip', '%s  (serialized: %r)' % (d, ser))
+        # the serialized data handed in is still the same plain JSON data
+        # (an emitter hands out its stored rows for deserialization)
+        d = plain_json(ser)
+        if d or _json.dumps(ser, sort_keys=True) != before:
+            res.fail('deserialize_changed_input', 'after deserialize_value the '
+                     'serialized data is %r, was %s' % (ser, before))
         if spec['value']['t'] == 'dict' and spec.get('emit'):
             from vivarium.core.emitter import RAMEmitter
             em = RAMEmitter({})
